@@ -62,6 +62,8 @@ class C10:
                 target = gen.rand_target(rng)
                 if rng.chance(1, 40):
                     target = rng.pick(gen.D8_TARGETS)
+                elif rng.chance(1, 8):
+                    target = gen.canonical_abs_target(rng)      # the class of C10_request_roundtrip_absolute
                 g = Group("g%d" % k, "req-value", {"method": method.hex(), "target": target.hex(), "headers": [[a.hex(), b.hex()] for a, b in hs], "body": body.hex(), "hl": hl})
                 g.add("grt", "REQGRT %s %s %s %s %s" % (opt(hl), hx(method), hx(target), hdrs_field(hs), hx(body)))
                 g.add("uri", "URI %s" % hx(target))
